@@ -28,7 +28,8 @@ T_C04_EvenSpread == (StepDone("await_started") /\ obs.limit >= 8) =>
 T_C05_PauseResume == (StepDone("quiet") \/ StepDone("connect") \/ StepDone("await_started")) => obs.stepOk
 \* C08: after a worker died service continues and a replacement instance of the service is created
 T_C08_ServiceContinues == (StepDone("await_started") \/ StepDone("await_finished")) => obs.stepOk
-T_C08_Replaced == (Step /\ obs.e = "End" /\ obs.poisoned > 0) => obs.factoriesA > obs.workers
+\* (a worker died = its service instances were destroyed while the server was running)
+T_C08_Replaced == (Step /\ obs.e = "End" /\ obs.poisoned > 0 /\ obs.died > 0) => obs.factoriesA > obs.workers
 TraceAccepted ==
   LET n == TLCGet("stats").diameter - 1 IN
     /\ PrintT(<<"TRACE_MATCHED", n, Len(Rec)>>)
